@@ -236,14 +236,19 @@ def campaign(pid: str, mod_name: str, tier: str, master_seed: int, n_runs: int, 
         v0 = (r.get("violations") or [{}])[0]
         print(f"VIOLATION property={pid} replay={path} clause={v0.get('clause')} seed={r.get('seed')}", flush=True)
         exit_code = 1
-    if exit_code == 0 and (agg.harness or pool_broken or agg.precond):
+    # Runs whose episode did not complete cannot be judged by this property's oracle; whether that is a defect is C05's verdict. A few of
+    # them are reported and tolerated (the supported class S is an empirical boundary); many make the result inconclusive.
+    precond_limit = max(2, int(0.05 * agg.results))
+    for r in agg.precond[:3]:
+        path = write_replay(pid, r, tag=".precond")
+        print(f"[{pid}] PRECONDITION-FAILED seed={r.get('seed')}: {str(r.get('detail'))[:600]} (replay {path}); see check C05", flush=True)
+    if exit_code == 0 and (agg.harness or pool_broken or len(agg.precond) > precond_limit):
         for r in agg.harness[:3]:
             print(f"[{pid}] HARNESS-ERROR seed={r.get('seed')}: {str(r.get('detail'))[-1200:]}", flush=True)
-        for r in agg.precond[:3]:
-            path = write_replay(pid, r, tag=".precond")
-            print(f"[{pid}] PRECONDITION-FAILED seed={r.get('seed')}: {str(r.get('detail'))[:600]} (replay {path}); see check C05", flush=True)
         if pool_broken:
             print(f"[{pid}] HARNESS-ERROR {pool_broken}", flush=True)
+        if len(agg.precond) > precond_limit:
+            print(f"[{pid}] INCONCLUSIVE: {len(agg.precond)} of {agg.results} runs did not complete", flush=True)
         exit_code = 2
     if agg.results == 0:
         exit_code = 2
